@@ -364,7 +364,8 @@ def main():
         props_modules = list(getattr(mod, "LEAN_MODULES", ["KmipModel.Props." + pid]))
         build_ok = True
         if not a.no_build:
-            rc, out = ctx.lake_build(props_modules)
+            # KmipModel.Engine.Wire: the JSON line protocol the engine drivers import
+            rc, out = ctx.lake_build(props_modules + ["KmipModel.Engine.Wire"])
             if rc != 0:
                 build_ok = False
                 ctx.broken_theorems = broken_theorems_from_log(out) or ["<build failed>"]
